@@ -118,7 +118,7 @@ PROPS = {
                         "process address space limited to 6 GB by the driver (RLIMIT_AS); per-process timeout"],
     },
     "C14": {
-        "level": "exploration", "quick": 3000, "thorough": 30000, "batch": 1, "single_timeout": 120,
+        "level": "exploration", "quick": 5000, "thorough": 50000, "batch": 1, "single_timeout": 120,
         "rule": ("2-3 writer tasks (each the only writer of its KV keys, vectors and metadata versions; every value carries a monotone version), "
                  "1-2 admin tasks issuing SaveSnapshot / RewriteAOF (overlapping when two admins) / Flush / Sync / forced vacuum, an optional task that "
                  "calls Close at a random point, optional tiny auto-save policy, all run by the cooperative scheduler: every lock operation and every "
